@@ -15,7 +15,7 @@ FirstDiff(a, b) == LET m == IF Len(a) < Len(b) THEN Len(a) ELSE Len(b)
                    IN IF bad = {} THEN m + 1 ELSE Min(bad)
 Check(r) ==
   /\ Chk("C05_RelayoutAccepted", 0, r.accepted)
-  /\ (r.accepted => /\ Chk("B_SameCodeTokens", FirstDiff(r.code0, r.code1), r.code0 = r.code1)
+  /\ (r.accepted => /\ Chk("C05_SameCodeTokens", FirstDiff(r.code0, r.code1), r.code0 = r.code1)
                     /\ Chk("C05_RolesInvariant", FirstDiff(r.roles0, r.roles1), r.code0 # r.code1 \/ r.roles0 = r.roles1))
 Init == n \in 1..Len(Recs) /\ Check(R)
 Next == FALSE /\ n' = n
